@@ -114,6 +114,9 @@ func describeAtomic(input, output any) string {
 	case "GetOrCreate":
 		return fmt.Sprintf("GetOrCreate(k%d,%d) -> o%d", in.Key, in.Val, out.Obj)
 	case "Get":
+		if out.Obj < 0 {
+			return fmt.Sprintf("Get(k%d) -> (nil,%v)", in.Key, out.OK)
+		}
 		return fmt.Sprintf("Get(k%d) -> (o%d,%v)", in.Key, out.Obj, out.OK)
 	case "Add":
 		return fmt.Sprintf("o%d.Add(%d) -> %d", in.Obj, in.Val, out.V)
